@@ -199,6 +199,11 @@ def nm(name):
     return name + "_" if name in _LEAN_WORDS else name
 
 
+class UnAlias(ast.stmt):
+    """synthetic statement: the narrowed reading of an Optional local ends here"""
+    _fields = ("name", "saved")
+
+
 class Fn:
     """translation state of one method"""
 
@@ -206,6 +211,8 @@ class Fn:
         self.cls = cls
         self.fn = fn
         self.ret = None
+        self.alias = {}
+        self.unpacked = set()
         self.env = {}  # local name -> structured type (best effort; used to tell a dict from a list of pairs)
 
     def ty(self, e):
@@ -312,7 +319,7 @@ class Fn:
     # --- expressions: Lean text usable inside a `do` block (may contain `(← ...)`)
     def ex(self, e):
         if isinstance(e, ast.Name):
-            return nm(e.id)
+            return nm(self.alias.get(e.id, e.id))
         if isinstance(e, ast.Constant):
             if e.value is None:
                 return "none"
@@ -345,9 +352,9 @@ class Fn:
             if self.ty(e.value) == "IndexResult" and e.attr in ("_items", "items"):
                 return f"{self.atom(e.value)}._items"
             if isinstance(e.value, ast.Name) and e.attr in _POINT_ATTR:
-                return f"{e.value.id}.{_POINT_ATTR[e.attr]}"
+                return f"{nm(self.alias.get(e.value.id, e.value.id))}.{_POINT_ATTR[e.attr]}"
             if isinstance(e.value, ast.Name) and e.attr == "time":
-                return f"(timeOf {e.value.id})"
+                return f"(timeOf {nm(self.alias.get(e.value.id, e.value.id))})"
             raise Unsupported("attribute " + ast.dump(e))
         if isinstance(e, ast.Tuple):
             return "(" + ", ".join(self.ex(x) for x in e.elts) + ")"
@@ -720,10 +727,20 @@ class Fn:
                     raise Unsupported("bare annotation")
             if isinstance(target, ast.Name):
                 ty = lean_type(ann) if ann is not None else None
+                prev_t = self.env.get(target.id)
                 self.env[target.id] = parse_type(ann) if ann is not None else self.ty(s.value)
                 val = self.ex(s.value)
                 if ty is None and val == "[]":
                     ty = self.local_type(target.id, rest)
+                if ty is None and val == "none":
+                    ty = self.local_type(target.id, rest)
+                    if ty and ty.startswith("(Option ") and ty.endswith(")"):
+                        self.env[target.id] = ("Option", ty[len("(Option "):-1])
+                elif ty is None:
+                    tv = self.ty(s.value)
+                    if isinstance(prev_t, tuple) and prev_t[0] == "Option" and tv is not None and tv == prev_t[1]:
+                        val = f"some {self.atom(s.value)}"      # a value stored into an Optional local
+                        self.env[target.id] = prev_t
                 line = f"{ind}let {nm(target.id)}{' : ' + ty if ty else ''} := {val}\n"
                 self.known.pop(target.id, None)      # what was known about this flag no longer holds
                 if isinstance(s.value, ast.Constant) and isinstance(s.value.value, bool):
@@ -872,6 +889,24 @@ class Fn:
             body = self.block(list(s.body) + rest, k, i2, defined)
             self.env[q] = saved_t
             return f"{ind}match {nm(q)} with\n{ind}| .simple {nm(q)} => do\n{body}{ind}| _ => do\n{other}"
+        if isinstance(s, UnAlias):
+            self.alias.pop(s.name, None)
+            self.env[s.name] = s.saved
+            return self.block(rest, k, ind, defined)
+        if (isinstance(s, ast.If) and isinstance(s.test, ast.Name) and isinstance(self.env.get(s.test.id), tuple)
+                and self.env[s.test.id][0] == "Option" and self.env[s.test.id][1] == "Point" and s.test.id not in self.alias):
+            # `if point:` on an Optional[Point] (a Point object is always truthy): inside the branch the name is the point itself
+            x = s.test.id
+            t = self.env[x]
+            i2 = ind + "  "
+            none_branch = self.block(list(s.orelse) + rest, k, i2, defined)
+            self.alias[x] = x + "_some"
+            self.env[x] = t[1]
+            some_branch = self.block(list(s.body) + [UnAlias(name=x, saved=t)] + rest, k, i2, defined)
+            self.alias.pop(x, None)
+            self.env[x] = t
+            return (f"{ind}match {nm(x)} with\n{ind}| none => do\n{none_branch}"
+                    f"{ind}| some {nm(x + '_some')} => do\n{some_branch}")
         if isinstance(s, ast.While):
             # while n < len(xs): <body>; n += 1      — a bounded scan: n runs over range(n, len(xs)); `break` leaves it
             t = s.test
@@ -1028,6 +1063,7 @@ class Fn:
         self.mutval = fn.name in self.cls.mutvals
         self.loop_k = None
         self.break_k = None
+        self.alias = {}
         self.unpacked = set()
         self.after = []
         self.known = {}
@@ -1098,7 +1134,7 @@ INDEX_METHODS = [
 # the methods of `TinyFlux` that are translated (the list level: storage is the decoded view of its rows)
 DATABASE_METHODS = ["_reset_database", "_remove_helper", "count", "contains",
                     "__len__", "get_field_keys", "get_field_values", "get_measurements", "get_tag_keys", "get_timestamps",
-                    "search"]
+                    "search", "get"]
 INDEX_READERS = ("get_field_keys", "get_field_values", "get_measurements", "get_tag_keys", "get_tag_values", "get_timestamps")
 
 
